@@ -1,7 +1,11 @@
 package props
 
 import (
+	"bytes"
 	"fmt"
+	"os"
+	"os/exec"
+	"strings"
 
 	"github.com/gregoryv/mq"
 
@@ -97,7 +101,77 @@ func unmarshalTargets(t *sim.Tape, first byte) []mq.Packet {
 	return out
 }
 
+// c04DeepFrames: frames that are as DEEP as the format allows at a size of tens
+// of megabytes - one property section holding millions of the smallest
+// properties. A decoder whose stack grows with the number of elements dies of a
+// stack overflow, which no recover() catches: the calls are made in a child
+// process, and "the call returns normally" is judged by how that process ends.
+func c04DeepFrames() [][]byte {
+	mk := func(first byte, head []byte, unit []byte, count int, tail []byte) []byte {
+		props := make([]byte, 0, len(unit)*count)
+		for i := 0; i < count; i++ {
+			props = append(props, unit...)
+		}
+		body := ref.AppendVarint(append([]byte{}, head...), uint32(len(props)))
+		body = append(append(body, props...), tail...)
+		f, _ := ref.Frame(first, body, nil)
+		return f
+	}
+	return [][]byte{
+		mk(0x30, []byte{0, 1, 'a'}, []byte{0x01, 0x00}, 11<<20, []byte("x")),                             // 11 Mi payload format indicators in a PUBLISH
+		mk(0x30, []byte{0, 1, 'a'}, []byte{0x0B, 0x01}, 10<<20, nil),                                     // 10 Mi subscription identifiers
+		mk(0xE0, []byte{0x00}, []byte{0x26, 0, 0, 0, 0}, 3<<20, nil),                                     // 3 Mi empty user properties in a DISCONNECT
+		mk(0x82, []byte{0, 1}, []byte{0x0B, 0x01}, 10<<20, []byte{0, 1, 'a', 0}),                         // 10 Mi subscription identifiers in a SUBSCRIBE
+		mk(0x10, []byte{0, 4, 'M', 'Q', 'T', 'T', 5, 0, 0, 0}, []byte{0x17, 0x01}, 10<<20, []byte{0, 0}), // 10 Mi request-problem-information in a CONNECT
+	}
+}
+
+// C04DeepChild decodes them (ReadPacket and UnmarshalBinary); exit 0 = every
+// call returned, whatever it returned.
+func C04DeepChild() int {
+	for _, f := range c04DeepFrames() {
+		p, err := mq.ReadPacket(bytes.NewReader(f))
+		if (p == nil) == (err == nil) {
+			fmt.Printf("frame %x... (%d bytes): ReadPacket returned packet %v AND error %v\n", f[:12], len(f), p, err)
+			return 1
+		}
+		_, body, _, _ := ref.SplitFrame(f)
+		q := drv.Zero(f[0] >> 4)
+		_ = q.UnmarshalBinary(body)
+		fmt.Printf("frame %x... (%d bytes) decoded: err=%v\n", f[:12], len(f), err != nil)
+	}
+	return 0
+}
+
+func c04Deep(c *sim.Ctx) *sim.Violation {
+	cmd := exec.Command(os.Args[0], "c04-deep")
+	out, err := cmd.CombinedOutput()
+	c.Count("probe.frames-with-millions-of-properties-in-one-section(child process)")
+	if err != nil {
+		msg := string(out)
+		if i := strings.Index(msg, "goroutine "); i > 0 && i < len(msg) {
+			// keep the runtime's verdict and the first frames of the trace
+			head := msg[:i]
+			rest := msg[i:]
+			if len(rest) > 1500 {
+				rest = rest[:1500]
+			}
+			if len(head) > 1500 {
+				head = head[len(head)-1500:]
+			}
+			msg = head + rest
+		} else if len(msg) > 3000 {
+			msg = msg[:3000]
+		}
+		return sim.V("C04/deep-property-section/the-call-does-not-return-normally", "frames whose property section holds 3..11 Mi of the smallest properties (PUBLISH, DISCONNECT, SUBSCRIBE, CONNECT; 20..34 MB each), decoded in a child process: the process ended with %v\n%s", err, msg)
+	}
+	return nil
+}
+
 func runC04(c *sim.Ctx) *sim.Violation {
+	if c.Run == 33 {
+		return c04Deep(c)
+	}
 	t := c.T
 	stream, frames, plans := hostileStream(c, c.Thorough)
 	mode := link.Mode{Chunk: t.Bool(1, 2), Stutter: t.Bool(1, 4), DataEOF: t.Bool(1, 2)}
